@@ -11,10 +11,11 @@ import c10_gen as g
 sys.path.insert(0, os.path.join(c.VERIF, "translate"))
 import prec_table  # noqa: E402
 import ident_rules  # noqa: E402
+import c10_peg  # noqa: E402  (grammar layer: translate/pest2coq.py, coq/Peg.v, PEG-* streams)
 
 PID = "C10"
 MANIFEST = {
-    "text": "19 Coq theorems. Token level (transcription of pest's Pratt parser and pairs_to_expr_inner over token "
+    "text": "34 Coq theorems. Token level (transcription of pest's Pratt parser and pairs_to_expr_inner over token "
             "streams, table regenerated from precedence.rs / expressions.rs / pest on every run): the Pratt table built "
             "from the generated rows refines the hand-written specification table (all 34 operator rules); every tree "
             "the parser can produce is recovered from EVERY rendering that carries at least the parentheses the "
@@ -29,12 +30,29 @@ MANIFEST = {
             "identifier (symbolic in the name) and every symbol operator written without blanks is read as itself, each "
             "with the exclusion of one open known finding and a refutation lemma. Model tied to the code by exhaustive "
             "PARSE correspondence (all operator pairs, affix combinations, triples) and random deep trees; layout, "
-            "identifier, spelling and grouping searches on the real parser",
+            "identifier, spelling and grouping searches on the real parser. Grammar layer (coq/Peg.v: executable "
+            "transcription of pest 2.8.3's runtime and rule compilation; coq/gen/Grammar.v: grammar.pest after pest's "
+            "optimizer, regenerated on every run by translate/pest2coq.py): for EVERY grammar, fuel monotonicity, a "
+            "failing expression leaves position and pairs untouched, every success consumes a prefix and all pairs are "
+            "ordered, nested and inside the text (the parser's share of C01), position independence (moving the offset "
+            "moves all spans and nothing else); the rules identifier / bool / null / identifier_rest / reserved_word of "
+            "the regenerated grammar are exactly the specification functions the name theorems are about, and its number "
+            "rule accepts exactly the language of gen/NumGrammar.v (C16's token); for every "
+            "grammar whose WHITESPACE is a choice of single characters, skip absorbs additional blanks and additional "
+            "blanks between the two tokens of a non-atomic sequence change nothing but positions (unconditional after a "
+            "literal token; instance for the "
+            "regenerated grammar). PARTIAL: fuel sufficiency from the computed well-formedness check is stated "
+            "(fuel_sufficient_full), not proved (OutOfFuel counted, 0); layout insensitivity of whole programs (blanks "
+            "and line breaks inside the compound-atomic expression rule are explicit grammar calls) stays with the "
+            "layout searches; the model's pair tree is compared with pest's generated parser on ~5000 generated, "
+            "corpus, README and mutated texts per run (PEG-tree, PEG-malformed)",
     "note": "trusted: Coq kernel + vm_compute; translate/prec_table.py and translate/ident_rules.py (source text -> "
             "tables; shape-checked, cross-checked against operator_info of the built crate and against the real parser "
             "by the PARSE / IDENT-model / LEX-after streams); hand transcription of pest 2.8.3 pratt_parser.rs and of "
             "pairs_to_expr_inner; blanks, line breaks, comment placement and trailing commas are decided by exhaustive "
-            "single-gap and random layout searches on the real parser, not by proof (no full PEG model); no axioms",
+            "single-gap and random layout searches on the real parser (the PEG model of the grammar layer proves the "
+            "per-junction whitespace facts only); translate/pest2coq.py (pest meta-grammar parser + optimizer passes) and "
+            "the hand transcription coq/Peg.v of pest's runtime, cross-checked pair-for-pair by the PEG streams; no axioms",
     "design_ref": "DESIGN.md section 6 C10; notes/C10.md",
 }
 REQ = ["Blots.Num", "Blots.gen.Builtins", "Blots.Ast", "Blots.Outcome", "Blots.PrattTypes", "Blots.gen.PrecTable",
@@ -61,6 +79,11 @@ def regen_ident():
         raise c.BrokenTie("translate/ident_rules.py: grammar.pest missing", str(e))
     c.write_if_changed(os.path.join(c.GEN, "IdentRules.v"), txt)
     return info
+
+
+def regen_grammar():
+    """coq/gen/Grammar.v: grammar.pest as pest 2.8.3 compiles it (translate/pest2coq.py); see checks/c10_peg.py"""
+    return c10_peg.regen_grammar()
 
 
 def spelling_arms_shared():
@@ -874,6 +897,14 @@ def main(argv):
         # stale gen/IdentRules.v only so that the Coq files compile); the name / operator models do not
         res.tie_broken(e.what, e.detail)
         ident_ok = False
+    peg_ok = True
+    try:
+        res.streams["translator-grammar"] = regen_grammar()
+    except c.BrokenTie as e:
+        # grammar.pest uses a construct translate/pest2coq.py does not translate: the PEG model does not run
+        # (the stale gen/Grammar.v only keeps the Coq files compiling)
+        res.tie_broken(e.what, e.detail)
+        peg_ok = False
     bad_ids = [x for x in g.IDENTS if x in builtin_names]
     if bad_ids:
         res.tie_broken("generator identifiers collide with built-in names", ",".join(bad_ids))
@@ -921,6 +952,15 @@ def main(argv):
             t = tg.tree(1 + rng.below(5))
             par, wn = g.random_oracles(rng, t)
             meta.append((t, par, wn))
+    # ---- PEG: the grammar layer, model (Peg.v on gen/Grammar.v) vs pest's generated parser, full pair trees
+    if peg_ok:
+        try:
+            a, b = c10_peg.peg_streams(h, res, rng, tier, meta)
+            evaluations += a
+            validated += b
+        except c.BrokenTie as e:
+            res.tie_broken(e.what, e.detail)
+        lap(res, "PEG")
     # ---- searches on the implementation alone
     evaluations += small_search(h, res)
     evaluations += triple_search(h, res)
